@@ -92,6 +92,24 @@ fn content_strategy(tier: Tier) -> BoxedStrategy<Vec<u8>> {
         }),
         2 => prop::collection::vec(any::<u8>(), 0..300),
         1 => (1usize..max, any::<u8>()).prop_map(|(n, s)| (0..n).map(|i| (i as u8).wrapping_mul(s | 1).wrapping_add(s)).collect()),
+        // a marker line at an arbitrary offset (any internal buffer size has an edge somewhere)
+        2 => (0usize..max.min(9000), prop::sample::select(vec![&b"$NetBSD$"[..], b"x $NetBSD: y $", b"$NetBSD", b"$NetBS"]), 1usize..80).prop_map(|(at, marker, w)| {
+            let mut v = vec![];
+            while v.len() + w + 1 < at {
+                v.extend(std::iter::repeat(b'f').take(w));
+                v.push(b'\n');
+            }
+            while v.len() < at {
+                v.push(b'g');
+            }
+            if at > 0 {
+                let l = v.len();
+                v[l - 1] = b'\n';
+            }
+            v.extend_from_slice(marker);
+            v.extend_from_slice(b"\ntail line\n");
+            v
+        }),
     ]
     .boxed()
 }
@@ -491,6 +509,32 @@ pub fn check(c: &Case, obs: &mut Obs) -> Result<(), String> {
     let sz = Distinfo::calculate_size(&path).map_err(|e| format!("calculate_size: {}", e))?;
     if sz != actual_len {
         return Err(format!("calculate_size = {}, file has {} bytes", sz, actual_len));
+    }
+    // the Entry-level entry points agree with the container-level ones on the same path
+    if let (Some(_), Ok(e)) = (found, di.find_entry(&path)) {
+        let show = |r: &Result<pkgsrc::digest::Digest, DistinfoError>| match r {
+            Ok(d) => format!("Ok({})", d),
+            Err(x) => format!("Err({})", x),
+        };
+        for alg in ALGS {
+            let a = e.verify_checksum(&path, to_digest(alg));
+            let b = di.verify_checksum(&path, to_digest(alg));
+            obs.verdicts += 1;
+            if show(&a) != show(&b) {
+                return Err(format!("Entry::verify_checksum({}) = {} but Distinfo::verify_checksum = {} for the same path", alg.name(), show(&a), show(&b)));
+            }
+        }
+        let (a, b) = (e.verify_checksums(&path), di.verify_checksums(&path));
+        if a.iter().map(show).collect::<Vec<_>>() != b.iter().map(show).collect::<Vec<_>>() {
+            return Err("Entry::verify_checksums and Distinfo::verify_checksums disagree on the same path".into());
+        }
+        let sz = |r: &Result<u64, DistinfoError>| match r {
+            Ok(n) => format!("Ok({})", n),
+            Err(x) => format!("Err({})", x),
+        };
+        if sz(&e.verify_size(&path)) != sz(&di.verify_size(&path)) {
+            return Err("Entry::verify_size and Distinfo::verify_size disagree on the same path".into());
+        }
     }
     // also look the file up by relative spellings (trailing sub-paths as the caller's path)
     if let Some(r) = found {
